@@ -7,18 +7,18 @@
      probe  end of a case: which mode the server is in for a connection, EVENTs it received after a local change *)
 EXTENDS Naturals, Sequences, FiniteSets, TLC, Json, IOUtils
 
-VARIABLES l, verified, val, cb, subs, store
-tvars == <<l, verified, val, cb, subs, store>>
+VARIABLES l, verified, val, cb, subs, store, sok
+tvars == <<l, verified, val, cb, subs, store, sok>>
 
 Trace == ndJsonDeserialize(IOEnv.TRACE)
 SetOf(s) == {s[i] : i \in 1..Len(s)}
 Report(rule, ok) == IF ok THEN TRUE ELSE PrintT(<<"VIOL", rule, l>>)
 
-Init == l = 1 /\ verified = {} /\ val = 0 /\ cb = 0 /\ subs = {} /\ store = {}
+Init == l = 1 /\ verified = {} /\ val = 0 /\ cb = 0 /\ subs = {} /\ store = {} /\ sok = {}
 
 Reset == /\ l <= Len(Trace) /\ Trace[l].ev = "reset"
          /\ verified' = {} /\ val' = Trace[l].val /\ cb' = Trace[l].cb
-         /\ subs' = SetOf(Trace[l].subs) /\ store' = SetOf(Trace[l].store)
+         /\ subs' = SetOf(Trace[l].subs) /\ store' = SetOf(Trace[l].store) /\ sok' = {}
          /\ l' = l + 1
 
 FinishOK(e) == e.http = 200 /\ e.state = 4 /\ e.err = 0
@@ -40,6 +40,8 @@ Step ==
      /\ Report("VerifiedRule", e.enc => (wasV \/ (genuine /\ FinishOK(e))))
      /\ Report("ErrorRule", (e.a = "VFinish" /\ ~genuine) => ~FinishOK(e))
      /\ Report("ErrorRule", (e.a = "VStart" /\ e.p # "ok") => ~StartOK(e))
+     \* a finish is accepted only when it answers an accepted start: after a rejected or out-of-order start it is refused
+     /\ Report("ErrorRule", (e.a = "VFinish" /\ FinishOK(e)) => c \in sok)
      /\ Report("PlainStaysPlain", (isConn /\ ~wasV /\ e.f = "plain" /\ ~genuine) => e.class # "Timeout")
      \* C01: a protected request on an unverified connection is refused, discloses nothing, changes nothing
      /\ Report("GateRule", (e.a = "Req" /\ ~wasV) => (NotServed(e) /\ ~e.discloses))
@@ -49,6 +51,8 @@ Step ==
      /\ verified' = IF genuine /\ FinishOK(e) THEN verified \cup {c}
                     ELSE IF e.a = "Close" THEN verified \ {c} ELSE verified
      /\ val' = e.val /\ cb' = e.cb /\ subs' = SetOf(e.subs) /\ store' = SetOf(e.store)
+     /\ sok' = IF e.a = "VStart" THEN (IF StartOK(e) THEN sok \cup {c} ELSE sok \ {c})
+               ELSE IF e.a \in {"VFinish", "Close"} THEN sok \ {c} ELSE sok
   /\ l' = l + 1
 
 Probe ==
@@ -64,7 +68,7 @@ Probe ==
      /\ Report("OnlyVerifiedGetEvents", e.events > 0 => isV)
      /\ Report("RefusalChangesNothing", ~isV => (e.cb = cb /\ SetOf(e.subs) \subseteq subs /\ SetOf(e.store) = store))
      /\ cb' = e.cb /\ subs' = SetOf(e.subs) /\ store' = SetOf(e.store)
-  /\ UNCHANGED <<verified, val>>
+  /\ UNCHANGED <<verified, val, sok>>
   /\ l' = l + 1
 
 Next == Reset \/ Step \/ Probe
